@@ -149,6 +149,11 @@ func genENode(t *rapid.T, depth int, allowDollar bool, equs *[]*ENode, used map[
 		if k == 0 && allowDollar {
 			return &ENode{Dollar: true}
 		}
+		if k == 1 && len(*equs) > 0 && rapid.Bool().Draw(t, "reuse") {
+			// the same name used again elsewhere in the expression (its value must not depend on earlier uses)
+			e := (*equs)[rapid.IntRange(0, len(*equs)-1).Draw(t, "reusei")]
+			return &ENode{Name: e.Name, Def: e.Def}
+		}
 		if k == 1 {
 			// an EQU name standing for a (smaller) expression
 			def := genENode(t, min(depth, 1), false, equs, used)
